@@ -6051,6 +6051,8 @@ class CodegenCtx:
         result.add(f"{self.program_name}_result_t {self.program_name}_end({self.program_name}_state_t *state) {{")
         result.add(f"#define inval 255") # generate a define for this so that hooks still work
         with result as contents:
+            # Generate a target for actions that change the state and need to dispatch on it again (append overflow, break)
+            contents.add("repeatswitch:")
             # Generate a big switch statement for all states
             contents.add("switch (state->state) {")
             for idx, state in enumerate(self.dfa.states):
